@@ -231,3 +231,44 @@ class CoordToIndex(Contract):
 
 for _is in (False, True):
     fuc('utils.py::coord_to_index', props=['C02', 'C05', 'C14', 'C10'])(type('CoordToIndex' + ('Stop' if _is else ''), (CoordToIndex,), dict(include_stop=_is, variant=f'include_stop={_is}')))
+
+
+class CoordToIndexFloat(Contract):
+    """coord_to_index on the sample axis z0 + k*dz (exact reals, S3a; dz > 0): the k with z0 + k*dz == coord, IndexError iff there is none
+    (with include_stop: one interval past the end gives n)"""
+    include_stop = False
+    may_raise = ()
+
+    def inputs(self, c):
+        n = c.sym_int('n', lo=2, name='n_samples')
+        ax = _O.axis_float(c, 'zslices', n)
+        return dict(coord=c.sym_float('coord', name='coord'), coords=ax, include_stop=self.include_stop, _n=n, _ax=ax.prog)
+
+    def member(self, c, a):
+        z0, dz = a['_ax']
+        k = c.sym_int('kspec', name='spec_index')
+        # k := the integer with z0 + k*dz == coord, if any (Skolem constant: uniqueness follows from dz > 0)
+        return k, mk_bool(zreal(z0) + z3.ToReal(zint(k)) * zreal(dz) == zreal(a['coord']))
+
+    def raises(self, c, a):
+        z0, dz = a['_ax']
+        j = z3.Int('jq')
+        on = z3.Exists([j], z3.And(j >= 0, j < zint(a['_n']), zreal(z0) + z3.ToReal(j) * zreal(dz) == zreal(a['coord'])))
+        past = mk_bool(zreal(a['coord']) == zreal(z0) + z3.ToReal(zint(a['_n'])) * zreal(dz))
+        if self.include_stop:
+            return {'IndexError': And(Not(mk_bool(on)), Not(past))}
+        return {'IndexError': Not(mk_bool(on))}
+
+    def post(self, c, a, result):
+        z0, dz = a['_ax']
+        hit = mk_bool(zreal(z0) + z3.ToReal(zint(result)) * zreal(dz) == zreal(a['coord']))
+        inr = And(ops_cmp('>=', result, 0), ops_cmp('<', result, a['_n']))
+        if self.include_stop:
+            c.ensure(Or(And(inr, hit), And(ops_cmp('==', result, a['_n']), hit)), 'index_of_the_sample_time_or_length_one_past_the_end')
+        else:
+            c.ensure(And(inr, hit), 'index_of_the_sample_time')
+
+
+from pyvc.values import zreal as zreal      # noqa: E402
+for _is in (False, True):
+    fuc('utils.py::coord_to_index', props=['C02', 'C05', 'C14'])(type('CoordToIndexFloat' + ('Stop' if _is else ''), (CoordToIndexFloat,), dict(include_stop=_is, variant=f'float axis,include_stop={_is}')))
